@@ -331,16 +331,27 @@ package emitter
 //@   || (ChunkTail(c) == next && (next != -1 || (c.branchBehavior != nil && SwitchNoDefaultRet(c.branchBehavior))))
 
 //@ func (e *Emitter) renderChunks
-//@   requires GraphWF(chunks)
+//@   requires GraphWF(chunks) && len(chunks) >= 1
+//@   use pigeonhole(chunks)
 //@   ensures [C20:render-err] result1 != nil ==> result0 == ""
+// the script's entry label comes first and is exported exactly when the script is global (C15)
+//@   ensures [C15:entry-label] result1 == nil ==> (len(piecesOf(result0)) >= 1 && piecesOf(result0)[0] == (isGlobal ? sprintf("%s::\n", scriptName) : sprintf("%s:\n", scriptName)))
+// every other label of the script is a local sub-label, and every chunk body follows its label (C04, C05, C15)
+//@   exit [C04,C05,C15:layout-out] result1 == nil ==> (len(piecesOf(result0)) == LCount(chunkIDs, jumpChunks, len(chunkIDs)) && (forall b int :: {chunkIDs[b]} (0 <= b && b < len(chunkIDs)) ==> (
+//@            LCount(chunkIDs, jumpChunks, b + 1) == LCount(chunkIDs, jumpChunks, b) + (NeedsLabel(chunkIDs[b], jumpChunks) ? 2 : 1)
+//@         && LCount(chunkIDs, jumpChunks, b) >= 0
+//@         && piecesOf(result0)[LCount(chunkIDs, jumpChunks, b + 1) - 1] == bstr2(chunkBodies[chunkIDs[b]].pieces, chunkBodies[chunkIDs[b]].markers)
+//@         && (NeedsLabel(chunkIDs[b], jumpChunks) ==> piecesOf(result0)[LCount(chunkIDs, jumpChunks, b)] ==
+//@               ((chunkIDs[b] == 0 && isGlobal) ? sprintf("%s::\n", scriptName) : sprintf("%s:\n", ChunkLabelName(chunkIDs[b], scriptName)))))))
 //@   loop 1
 //@     invariant [C17:keys] len(chunkIDs) == $n && (forall a int :: {chunkIDs[a]} (0 <= a && a < len(chunkIDs)) ==> has($visited, chunkIDs[a]))
 //@     invariant [C17:keys] forall a int, b int :: {chunkIDs[a], chunkIDs[b]} (0 <= a && a < b && b < len(chunkIDs)) ==> chunkIDs[a] != chunkIDs[b]
 //@     invariant [C17:keys] forall k int :: {has($visited, k)} has($visited, k) ==> indom(chunks, k)
+//@     invariant [C15,C17:keys-all] forall k int :: {has($visited, k)} has($visited, k) ==> (exists a int :: 0 <= a && a < len(chunkIDs) && chunkIDs[a] == k)
 //@   loop 2
 //@     invariant [C04,C20:chunk-labels] forall k int :: {has($visited, k)} has($visited, k) ==> indom(chunkLabels, ChunkLabelName(k, scriptName))
 //@   loop 3
-//@     invariant [C05:order] IsPerm(chunkIDs, len(chunks)) && RegMap(registerJumpChunk) == jumpChunks
+//@     invariant [C05,C15:order] IsPerm(chunkIDs, len(chunks)) && chunkIDs[0] == 0 && RegMap(registerJumpChunk) == jumpChunks
 //@     invariant [C04,C20:chunk-labels] forall k int :: {indom(chunks, k)} indom(chunks, k) ==> indom(chunkLabels, ChunkLabelName(k, scriptName))
 //@     invariant [C04:bodies] forall b int :: {chunkIDs[b]} (0 <= b && b < $i) ==> (indom(chunkBodies, chunkIDs[b]) && allocated(chunkBodies[chunkIDs[b]]))
 //@     invariant [C04:refs-registered] forall b int, k int :: {chunkBodies[chunkIDs[b]].pieces[k]} (0 <= b && b < $i && 0 <= k && k < len(chunkBodies[chunkIDs[b]].pieces) && RefOf(chunkBodies[chunkIDs[b]].pieces[k]) != -2)
@@ -351,7 +362,7 @@ package emitter
 //@   loop 4
 //@     use LCountBase(chunkIDs, jumpChunks)
 //@     use LCountStep(chunkIDs, jumpChunks, $i)
-//@     invariant [C04,C05:layout] $i <= len(chunkIDs) && len(sb.pieces) == LCount(chunkIDs, jumpChunks, $i)
+//@     invariant [C04,C05,C15:layout] $i <= len(chunkIDs) && len(sb.pieces) == LCount(chunkIDs, jumpChunks, $i) && len(chunkIDs) >= 1 && chunkIDs[0] == 0
 //@     invariant [C04,C05:layout] forall b int :: {chunkIDs[b]} (0 <= b && b < $i) ==> LCount(chunkIDs, jumpChunks, b + 1) <= len(sb.pieces)
 //@     invariant [C04,C05:layout] forall b int :: {chunkIDs[b]} (0 <= b && b < $i) ==> (
 //@            LCount(chunkIDs, jumpChunks, b + 1) == LCount(chunkIDs, jumpChunks, b) + (NeedsLabel(chunkIDs[b], jumpChunks) ? 2 : 1)
